@@ -2,17 +2,67 @@
    shape switches and literal tables regenerated from /repo into coq/gen/GenC14.v.
    Definitions only. *)
 From Coq Require Import List String Bool.
+Import ListNotations.
 From Dagrt Require Import GenC14 Unify KindInfer.
+Open Scope string_scope.
 
-Definition gen_cfg : cfg := {|
-  c_ut_int := unify_usertype_accepts_int;
-  c_arr_int := unify_array_accepts_int;
-  c_ins_changed := set_insert_marks_changed;
-  c_set_raises := set_reraises;
-  c_loops_prepass := loop_variables_prepass;
+(* the class that provides get_result_kinds -> the model's mirror of that method; the translator
+   rejects every class that is not listed here (harness/tr/c14.py RK_CLASSES) *)
+Definition rk_of_class (s : string) : option rkind :=
+  if s =? "_NormBase" then Some RNorm
+  else if s =? "ElementwiseAbs" then Some RAbs
+  else if s =? "DotProduct" then Some RDot
+  else if s =? "Len" then Some RLen
+  else if s =? "IsNaN" then Some RIsNan
+  else if s =? "Array_" then Some RArray
+  else if s =? "MatMul" then Some RMatMul
+  else if s =? "Transpose" then Some RTranspose
+  else if s =? "LinearSolve" then Some RLinSolve
+  else if s =? "SVD" then Some RSvd
+  else if s =? "Print" then Some RPrint
+  else None.
+
+(* dagrt.function_registry.base_function_registry; an entry with an unknown class is dropped
+   (the function is then "not found" in the model and the correspondence check reports it) *)
+Definition registry_of (facts : list (string * (list string * nat) * string)) : registry :=
+  flat_map (fun f => match rk_of_class (snd f) with
+                     | Some rk => [(fst (fst f), {| f_args := fst (snd (fst f));
+                                                     f_nres := snd (snd (fst f)); f_rk := rk |})]
+                     | None => []
+                     end) facts.
+
+Definition base_registry : registry := registry_of builtin_facts.
+
+(* register_ode_rhs(reg, output_type_id, identifier, input_type_ids, input_names): arg_names are
+   ("t",) + input_names; one result *)
+Definition rhs_sig (out : string) (input_names : list string) : fsig :=
+  {| f_args := "t" :: input_names; f_nres := 1; f_rk := RRhs out |}.
+
+(* register_function(reg, identifier, arg_names, result_names=..., result_kinds=...) *)
+Definition fixed_sig (arg_names : list string) (nres : nat) (ks : list kind) : fsig :=
+  {| f_args := arg_names; f_nres := nres; f_rk := RFixed ks |}.
+
+(* the model of SymbolKindFinder(base_function_registry extended by `extra`); FunctionRegistry.
+   register refuses an identifier that is already there, so the order does not matter *)
+Definition cfg_of (ut_int arr_int ins_changed set_raises prepass restart arr_only : bool)
+                  (extra : registry) : cfg := {|
+  c_ut_int := ut_int;
+  c_arr_int := arr_int;
+  c_ins_changed := ins_changed;
+  c_set_raises := set_raises;
+  c_loops_prepass := prepass;
+  c_restart := restart;
+  c_arr_only := arr_only;
+  c_reg := List.app base_registry extra;
   c_is_state := is_state_variable state_exact state_prefixes;
   c_init_global := init_global_names
 |}.
+
+Definition gen_cfg_with (extra : registry) : cfg :=
+  cfg_of unify_usertype_accepts_int unify_array_accepts_int set_insert_marks_changed set_reraises
+         loop_variables_prepass finder_restarts_after_change builtins_require_arrays extra.
+
+Definition gen_cfg : cfg := gen_cfg_with [].
 
 (* the real unify of the working tree *)
 Definition gen_unify := unify unify_usertype_accepts_int unify_array_accepts_int.
